@@ -736,3 +736,243 @@ Proof.
       rewrite Happ, Hh, Hh2. reflexivity.
     + unfold stable in *. rewrite forallb_app, Hst. unfold admit_at. destruct (ring s); reflexivity.
 Qed.
+
+(** * The ring remembers the newest stamps, whatever the reconfiguration history *)
+
+Definition newest (k : nat) (T : list Z) : list Z := skipn (length T - k) T.
+
+Definition remembers (s : state) (T : list Z) : Prop :=
+  exists k, (k <= length T)%nat /\ (k <= length (ring s))%nat /\
+            view s = repeat 0 (length (ring s) - k) ++ newest k T.
+
+Lemma tl_skipn : forall (l : list Z) n, tl (skipn n l) = skipn (S n) l.
+Proof.
+  induction l as [|x l IH]; intros n; [destruct n; reflexivity|].
+  destruct n as [|n]; [reflexivity|]. cbn [skipn]. rewrite IH. reflexivity.
+Qed.
+
+Lemma skipn_repeat : forall (x : Z) a b, skipn a (repeat x b) = repeat x (b - a).
+Proof.
+  intros x a. induction a as [|a IH]; intros b; [rewrite Nat.sub_0_r; reflexivity|].
+  destruct b as [|b]; [reflexivity|]. cbn [repeat skipn Nat.sub]. apply IH.
+Qed.
+
+Lemma skipn_skipn' : forall (l : list Z) a b, skipn a (skipn b l) = skipn (b + a) l.
+Proof.
+  induction l as [|x l IH]; intros a b; [rewrite !skipn_nil; reflexivity|].
+  destruct b as [|b]; [reflexivity|]. cbn [skipn Nat.add]. apply IH.
+Qed.
+
+Lemma newest_snoc : forall k T t, (k <= length T)%nat -> newest (S k) (T ++ [t]) = newest k T ++ [t].
+Proof.
+  intros k T t Hk. unfold newest. rewrite app_length. cbn [length].
+  replace (length T + 1 - S k)%nat with (length T - k)%nat by lia.
+  rewrite skipn_app. replace (length T - k - length T)%nat with 0%nat by lia. reflexivity.
+Qed.
+
+Lemma records_app : forall a b, records (a ++ b) = records a ++ records b.
+Proof. induction a as [|x a IH]; intros b; [reflexivity|]. destruct x; cbn [app records]; rewrite ?IH; reflexivity. Qed.
+Lemma handovers_app : forall a b, handovers (a ++ b) = handovers a ++ handovers b.
+Proof. induction a as [|x a IH]; intros b; [reflexivity|]. destruct x; cbn [app handovers]; rewrite ?IH; reflexivity. Qed.
+
+Lemma remembers_step : forall s l s' T, wf s -> step s l = Some s' -> remembers s T ->
+  remembers s' (T ++ records [l]).
+Proof.
+  intros s l s' T Hwf H (k & Hk1 & Hk2 & Hv).
+  assert (Hsame : forall s1, ring s1 = ring s -> cursor s1 = cursor s -> records [l] = [] ->
+                              remembers s1 (T ++ records [l])).
+  { intros s1 Hr Hc Hrec. rewrite Hrec, app_nil_r. exists k. unfold view in *. rewrite Hr, Hc. auto. }
+  unfold step, step_gen in H. destruct (time_of l <? now s); [discriminate|].
+  destruct l; cbn [time_of] in *.
+  - destruct (ph s); try discriminate. destruct (ring s) eqn:Er; [destruct (window s =? 0)|];
+      injection H as <-; apply Hsame; cbn [with_ph ring cursor]; auto.
+  - destruct (ph s); try discriminate. destruct (until <=? t); [|discriminate]. injection H as <-. apply Hsame; auto.
+  - destruct (ph s); try discriminate. injection H as <-. apply Hsame; auto.
+  - (* Rec *)
+    destruct (ph s); try discriminate. injection H as <-. cbn [records].
+    destruct Hwf as [Hc|[Hr Hc]].
+    + pose proof (view_record t s Hc) as Hvr.
+      pose proof (record_wf t s (or_introl Hc)) as (_ & Hlen & _).
+      destruct (Nat.eq_dec k (length (ring s))) as [E|E].
+      * (* full ring: the oldest stamp is replaced *)
+        exists k. rewrite app_length. cbn [length]. rewrite Hlen. split; [lia|]. split; [lia|].
+        rewrite Hvr, Hv. rewrite E, Nat.sub_diag. cbn [repeat app].
+        unfold newest. rewrite tl_skipn. rewrite app_length. cbn [length].
+        rewrite skipn_app. replace (length T + 1 - length (ring s) - length T)%nat with 0%nat by lia.
+        rewrite skipn_O. f_equal. f_equal. lia.
+      * (* an empty slot is filled *)
+        exists (S k). rewrite app_length. cbn [length]. rewrite Hlen. split; [lia|]. split; [lia|].
+        rewrite Hvr, Hv. rewrite newest_snoc by lia.
+        destruct (length (ring s) - k)%nat as [|z] eqn:Ez; [lia|].
+        replace (length (ring s) - S k)%nat with z by lia. cbn [repeat app tl]. rewrite app_assoc. reflexivity.
+    + unfold record. rewrite Hr. exists 0%nat. cbn [with_ph ring]. rewrite Hr. cbn [length].
+      split; [lia|]. split; [lia|]. unfold view, newest. cbn [with_ph ring cursor]. rewrite Hr.
+      rewrite skipn_nil, firstn_nil, !Nat.sub_0_r, skipn_all. reflexivity.
+  - (* SetMaxEvents *)
+    injection H as <-. cbn [records]. rewrite app_nil_r.
+    destruct (set_max_events_view n s Hwf) as [_ [Heq|(Hl & Hne & Hview & _)]].
+    + exists k. unfold view in *. cbn [with_ph ring cursor]. rewrite Heq. auto.
+    + assert (Hv' : view (with_ph (set_max_events_gen true n s) (ph (set_max_events_gen true n s)) t) =
+                    keep_newest n (view s)) by exact Hview.
+      assert (Hl' : length (ring (with_ph (set_max_events_gen true n s) (ph (set_max_events_gen true n s)) t)) = n) by exact Hl.
+      unfold remembers. rewrite Hv', Hl'. unfold keep_newest.
+      assert (HL : length (view s) = length (ring s)).
+      { apply view_length. destruct Hwf as [Hc|[Hr Hc]]; [lia|rewrite Hc; lia]. }
+      rewrite HL, Hv.
+      destruct (Nat.le_gt_cases k n) as [Hkn|Hkn].
+      * exists k. split; [exact Hk1|]. split; [exact Hkn|].
+        rewrite skipn_app, skipn_repeat, repeat_length.
+        replace (length (ring s) - n - (length (ring s) - k))%nat with 0%nat by lia. rewrite skipn_O.
+        rewrite app_assoc, <- repeat_app. f_equal. f_equal. lia.
+      * exists n. split; [lia|]. split; [lia|].
+        rewrite skipn_app, skipn_repeat, repeat_length.
+        replace (length (ring s) - k - (length (ring s) - n))%nat with 0%nat by lia.
+        replace (n - length (ring s))%nat with 0%nat by lia. rewrite Nat.sub_diag. cbn [repeat app].
+        unfold newest. rewrite skipn_skipn'. f_equal. lia.
+  - injection H as <-. apply Hsame; cbn [with_ph ring cursor]; auto;
+      unfold set_window; destruct (negb (w =? 0) && (length (ring s) =? 0)%nat); reflexivity.
+  - injection H as <-. apply Hsame; auto.
+  - destruct (ph s); try discriminate; injection H as <-; apply Hsame; auto.
+  - destruct (ph s); try discriminate; injection H as <-; apply Hsame; auto.
+Qed.
+
+Lemma remembers_run : forall ls s s' T, wf s -> remembers s T -> run s ls = Some s' ->
+  remembers s' (T ++ records ls).
+Proof.
+  induction ls as [|l ls IH]; intros s s' T Hwf Hr H.
+  - cbn in H. injection H as <-. cbn [records]. rewrite app_nil_r. exact Hr.
+  - unfold run in *. cbn [run_gen] in H. destruct (step_gen true s l) as [s1|] eqn:E; [|discriminate].
+    change (l :: ls) with ([l] ++ ls). rewrite records_app, app_assoc.
+    apply (IH s1); [apply (step_wf s l); assumption|apply (remembers_step s l); assumption|exact H].
+Qed.
+
+(** Whatever has happened — admissions, cancellations, SetMaxEvents and SetWindow in any
+    phase of the loop — the ring, read from the cursor, is some empty slots followed by the
+    newest stamps stored so far, in the order they were stored. *)
+Theorem ring_remembers_newest : forall n0 w0 t0 ls s, run (init n0 w0 t0) ls = Some s ->
+  exists k, (k <= length (records ls))%nat /\ (k <= length (ring s))%nat /\
+            view s = repeat 0 (length (ring s) - k) ++ newest k (records ls).
+Proof.
+  intros n0 w0 t0 ls s H.
+  apply (remembers_run ls (init n0 w0 t0) s [] (init_wf n0 w0 t0)); [|exact H].
+  exists 0%nat. cbn [length]. split; [lia|]. split; [lia|].
+  unfold view, init, newest. cbn [ring cursor skipn firstn length]. rewrite Nat.sub_0_r, !app_nil_r, repeat_length. reflexivity.
+Qed.
+
+(** SetMaxEvents with the current limit is the no-op the code says it is *)
+Lemma noop_set_max_events : forall s t, step s (SetMaxEvents t (length (ring s))) = step s (WaiterCancel t).
+Proof.
+  intros s t. unfold step, step_gen. cbn [time_of]. destruct (t <? now s); [reflexivity|].
+  unfold set_max_events_gen. rewrite Nat.eqb_refl.
+  destruct (negb (window s =? 0) && (length (ring s) =? 0)%nat); reflexivity.
+Qed.
+
+(** * Counting form: no window contains more than n admissions *)
+
+Definition in_window (a w x : Z) : bool := (a <=? x) && (x <? a + w).
+
+Lemma filter_none : forall (f : Z -> bool) l, (forall y, In y l -> f y = false) -> filter f l = [].
+Proof.
+  intros f l. induction l as [|x l IH]; intros H; [reflexivity|]. cbn [filter].
+  rewrite (H x (or_introl eq_refl)). apply IH. intros y Hy. apply H. right. exact Hy.
+Qed.
+
+Lemma filter_length_le : forall (f : Z -> bool) l, (length (filter f l) <= length l)%nat.
+Proof. intros f l. induction l as [|x l IH]; [cbn; lia|]. cbn [filter]. destruct (f x); cbn [length]; lia. Qed.
+
+Lemma window_count : forall (n : nat) (w : Z) (A : list Z), (0 < n)%nat ->
+  (forall i j, (i + n <= j < length A)%nat -> nth i A 0 + w <= nth j A 0) ->
+  forall a, (length (filter (in_window a w) A) <= n)%nat.
+Proof.
+  intros n w A Hn. induction A as [|x A IH]; intros H a; [cbn; lia|].
+  assert (H' : forall i j, (i + n <= j < length A)%nat -> nth i A 0 + w <= nth j A 0).
+  { intros i j Hij. apply (H (S i) (S j)). cbn [length]. lia. }
+  cbn [filter]. destruct (in_window a w x) eqn:E; [|apply IH; exact H'].
+  unfold in_window in E. apply andb_true_iff in E. destruct E as [E1 E2]. apply Z.leb_le in E1. apply Z.ltb_lt in E2.
+  rewrite <- (firstn_skipn (n - 1) A). rewrite filter_app.
+  rewrite (filter_none _ (skipn (n - 1) A)).
+  - rewrite app_nil_r. cbn [length]. pose proof (filter_length_le (in_window a w) (firstn (n - 1) A)).
+    rewrite firstn_length in *. lia.
+  - intros y Hy. destruct (In_nth _ _ 0 Hy) as (i & Hi & <-). rewrite skipn_length in Hi.
+    rewrite nth_skipn. specialize (H 0%nat (S (n - 1 + i))). cbn [nth length] in H.
+    specialize (H ltac:(lia)). unfold in_window. apply andb_false_iff. right. apply Z.ltb_ge. lia.
+Qed.
+
+Theorem at_most_n_in_any_window : forall (n : nat) (w t0 : Z) ls s',
+  (0 < n)%nat -> stable ls = true -> run (init n w t0) ls = Some s' ->
+  forall a, (length (filter (in_window a w) (handovers ls)) <= n)%nat.
+Proof.
+  intros n w t0 ls s' Hn Hst Hrun a. apply window_count; [exact Hn|].
+  intros i j Hij. exact (at_most_n_per_window n w t0 ls s' Hn Hst Hrun i j Hij).
+Qed.
+
+(** * What is not true *)
+
+(** the code before the fix: after growing and shrinking back to 3 events / 600, the admission
+    at 10606 — whose offer was computed under that configuration — is the fourth within 199 *)
+Theorem grow_shrink_forgets_live_stamp_orig_refuted :
+  exists ls1 s ls2 s',
+    run_orig (init 3 600 10000) ls1 = Some s /\ stable ls2 = true /\ run_orig s ls2 = Some s' /\
+    length (ring s) = 3%nat /\ window s = 600 /\
+    let A := handovers (ls1 ++ ls2) in
+    (length (handovers ls1) + inflight s <= 5)%nat /\ nth 5 A 0 - nth 2 A 0 < 600 /\
+    view s = [0; 0; 10600].
+Proof.
+  exists [Compute 10000; TimerFire 10000; Handover 10000; Rec 10000;
+          Compute 10000; TimerFire 10000; Handover 10003; Rec 10003;
+          Compute 10003; TimerFire 10003; Handover 10407; Rec 10407;
+          Compute 10407; SetMaxEvents 10440 6; TimerFire 10600; Handover 10600; Rec 10600;
+          Compute 10600; SetMaxEvents 10601 3].
+  eexists.
+  exists [TimerFire 10603; Handover 10603; Rec 10603; Compute 10603; TimerFire 10603; Handover 10606; Rec 10606].
+  eexists. split; [vm_compute; reflexivity|]. split; [reflexivity|]. split; [vm_compute; reflexivity|].
+  vm_compute. repeat split; try lia; discriminate.
+Qed.
+
+(** the code as it is: the same history keeps the three newest stamps *)
+Example grow_shrink_fixed :
+  exists s, run (init 3 600 10000)
+         [Compute 10000; TimerFire 10000; Handover 10000; Rec 10000;
+          Compute 10000; TimerFire 10000; Handover 10003; Rec 10003;
+          Compute 10003; TimerFire 10003; Handover 10407; Rec 10407;
+          Compute 10407; SetMaxEvents 10440 6; TimerFire 10600; Handover 10600; Rec 10600;
+          Compute 10600; SetMaxEvents 10601 3] = Some s /\ view s = [10003; 10407; 10600].
+Proof. eexists. split; vm_compute; reflexivity. Qed.
+
+(** The unconditional reading of "also after the limit has been changed" does not hold, by
+    design: (1) an offer computed before the change is honoured after it (SetWindow documents
+    this for waiters already blocked); here limit 1 is in force from 10550 and admissions
+    happen at 10500 and 10600, window 600. *)
+Theorem offer_before_change_is_honoured_refuted :
+  exists ls1 s ls2 s',
+    run (init 2 600 10000) ls1 = Some s /\ stable ls2 = true /\ run s ls2 = Some s' /\
+    length (ring s) = 1%nat /\ window s = 600 /\
+    last (handovers ls1) 0 = 10500 /\ handovers ls2 = [10600] /\ inflight s = 1%nat.
+Proof.
+  exists [Compute 10000; TimerFire 10000; Handover 10000; Rec 10000;
+          Compute 10000; TimerFire 10000; Handover 10500; Rec 10500;
+          Compute 10500; SetMaxEvents 10550 1].
+  eexists. exists [TimerFire 10600; Handover 10600; Rec 10600]. eexists.
+  split; [vm_compute; reflexivity|]. split; [reflexivity|]. split; [vm_compute; reflexivity|].
+  vm_compute. repeat split.
+Qed.
+
+(** (2) lowering the limit forgets the oldest stamps ("the oldest events will be forgotten"),
+    so raising it again at once gives room although those events are still inside the window:
+    limit 3 / window 600 in force, admissions 10400, 10401, 10600, 10600 — the last one
+    computed under that configuration. *)
+Theorem shrink_then_grow_forgets_refuted :
+  exists ls1 s ls2 s',
+    run (init 3 600 10000) ls1 = Some s /\ stable ls2 = true /\ run s ls2 = Some s' /\
+    length (ring s) = 3%nat /\ window s = 600 /\
+    let A := handovers (ls1 ++ ls2) in
+    (length (handovers ls1) + inflight s <= 4)%nat /\ nth 4 A 0 - nth 1 A 0 < 600.
+Proof.
+  exists [Compute 10000; TimerFire 10000; Handover 10000; Rec 10000;
+          Compute 10000; TimerFire 10000; Handover 10400; Rec 10400;
+          Compute 10400; TimerFire 10400; Handover 10401; Rec 10401;
+          Compute 10401; SetMaxEvents 10450 1; SetMaxEvents 10451 3].
+  eexists. exists [TimerFire 10600; Handover 10600; Rec 10600; Compute 10600; TimerFire 10600; Handover 10600; Rec 10600].
+  eexists. split; [vm_compute; reflexivity|]. split; [reflexivity|]. split; [vm_compute; reflexivity|].
+  vm_compute. repeat split; try lia; discriminate.
+Qed.
